@@ -235,7 +235,6 @@ Qed.
 Section Quoted.
   Variables sep quote escape : N.
   Hypothesis Hsq : sep <> quote.
-  Hypothesis Hse : sep <> escape.
   Hypothesis Hqe : quote <> escape.
   Hypothesis Hq_nrt : quote <> 110 /\ quote <> 114 /\ quote <> 116.
   Hypothesis He_nrt : escape <> 110 /\ escape <> 114 /\ escape <> 116.
@@ -325,7 +324,7 @@ Section Quoted.
 End Quoted.
 
 Theorem split_join_quoted : forall v sep quote escape,
-  sep <> quote -> sep <> escape -> quote <> escape ->
+  sep <> quote -> quote <> escape ->
   quote <> 110 /\ quote <> 114 /\ quote <> 116 -> escape <> 110 /\ escape <> 114 /\ escape <> 116 ->
   split_quoted (join_quoted v sep quote escape) sep quote escape = Some v.
 Proof. intros. now apply split_join_quoted_sec. Qed.
@@ -350,3 +349,28 @@ Example split_join_hyps :
   cleanb [97; 97] [[97]; [98]] = false /\
   split_quoted (join_quoted [[]; [34; 32; 92; 10]; [97]] 32 34 92) 32 34 92 = Some [[]; [34; 32; 92; 10]; [97]].
 Proof. vm_compute. repeat split; reflexivity. Qed.
+
+(** limit = 0: nothing is returned; empty separator: every character is a part of its own, the limit is honoured *)
+Lemma split_limit_zero : forall sepc seps str, split_char sepc str 0 = [] /\ split_str seps str 0 = [].
+Proof. intros. split; reflexivity. Qed.
+
+Lemma join_empty_singletons : forall l : bytes, join [] (map (fun c => [c]) l) = l.
+Proof.
+  induction l as [|c r IH]; [reflexivity|]. cbn [map]. destruct r as [|d r']; [reflexivity|].
+  rewrite join_cons_ne by discriminate. rewrite IH. reflexivity.
+Qed.
+
+Lemma join_split_empty_go : forall limit str cnt, join [] (split_empty_go str cnt limit) = str.
+Proof.
+  intros limit str. induction str as [|c rest IH]; intros cnt; cbn [split_empty_go]; [reflexivity|].
+  destruct (limit <=? cnt + 1); [apply join_single|].
+  destruct rest as [|d rest']; [reflexivity|].
+  rewrite join_cons_ne.
+  - rewrite IH. reflexivity.
+  - cbn [split_empty_go]. destruct (limit <=? cnt + 1 + 1); discriminate.
+Qed.
+
+Lemma split_str_empty_shipped_refuted :
+  split_str_empty_shipped [97; 98; 99; 100; 101; 102] 2 = [[97]; [98]; [99]; [100]; [101]; [102]] /\
+  split_str [] [97; 98; 99; 100; 101; 102] 2 = [[97]; [98; 99; 100; 101; 102]].
+Proof. vm_compute. split; reflexivity. Qed.
